@@ -997,8 +997,9 @@ def run(tier: str, seed: int, replay=None) -> int:
         "quantifier evaluation, Exists, ConclusionSelector/ExceptIf, let): a changed method reopens the correspondence obligation",
     ]
     rep.assume = [
-        "part (c) -- arbitrary next() interleavings of whole evaluations -- is COMPARED, not proved: the coroutine machine is an "
-        "executable prediction; scratch state on shared nodes (_is_false_, _eval_parent_, left_evaluated) is not in any model",
+        "part (c) -- arbitrary next() interleavings of whole evaluations -- is proved ABOUT THE COROUTINE MACHINE (Eql/DomainCacheSched.v); that the "
+        "machine is what the implementation does is the correspondence of this check (sched / rsched cases), not a theorem; scratch state on "
+        "shared nodes other than the selector's memory (_is_false_, _eval_parent_, left_evaluated) is not in any model",
         "the coroutine machine keeps the selector node's coverage memory and _conclusion_ set per query OBJECT ('rsched' cases); where two "
         "conclusions are applied in set-iteration order it predicts 'tag 0 or 1' (wildcard -5), the only inexact spot",
         "part (b) is proved for the conjunctive fragment (atoms x.a op c / x.a op y.a, selected variables, one optional refinement rule) "
@@ -1171,8 +1172,11 @@ def run(tier: str, seed: int, replay=None) -> int:
         "b": "proved on the fragment, rule queries with a refinement INCLUDED (selector memory forgotten at the start of an evaluation, a3cd335): "
              "C03_reeval_isolated / _idempotent / C03_history_independent (any domains), C03_exists_local_isolated; regression statement about "
              "the previous code: C03_refuted_rule_reeval; refuted design alternative: C03_refuted_shared_exists_memory",
-        "c": "partial: compared on enumerated and random schedules against an executable prediction, not proved; open finding C03-b2: two LIVE "
-             "evaluations of one rule-query object interfere through the selector node (predicted exactly by the coroutine machine, 'rsched' cases)"}
+        "c": "proved for the coroutine machine: C03_sched_isolated (every world, every list of fragment queries incl. refinement rules, every schedule "
+             "of next/close steps over any number of evaluations of pairwise distinct query objects: prefix of the isolated rows, all of them when "
+             "the evaluation ends by itself, never a failure), C03_compile_ideal (CPS / list-monad bridge), C03_sched_sequential_is_hist and "
+             "C03_sched_exhausted_is_hist (machine = whole-evaluation model); refuted: C03_refuted_rule_object_twice (open finding C03-b2). The "
+             "machine itself is a hand model tied to the implementation by the enumerated / random schedules of this check"}
     samples = []
     for kind in ("cache", "hist", "sched", "rsched", "extra"):
         ks = [i for i, d in enumerate(descrs) if d["kind"] == kind and "_file" not in d]
